@@ -262,7 +262,7 @@ def run(prop, argv):
             # on short intervals next to a live application writer (C05: storage faults armed in bursts meanwhile)
             t3 = time.time()
             dcases = corelib.daemon_cases(seed + {"C05": 5, "C06": 6, "C07": 7}[prop], 12 if not thorough else 150, first_id=len(cases),
-                                          faults="all" if prop == "C05" else "none")
+                                          faults="all" if prop == "C05" else "none", store_ops=thorough)
             corelib.daemon_run(rep, binary, wd, dcases, prop)
             rep.cov["traces_validated_against_impl"] += len(dcases)
             rep.cov["phase_s"]["daemon_mode"] = round(time.time() - t3, 1)
